@@ -243,8 +243,13 @@ func (x *Exec) storeTo(p *PtrV, v Val) {
 
 // allocObj allocates a fresh object of type t (zero initialised) and returns the pointer.
 func (x *Exec) allocObj(t types.Type, ptrT types.Type, zero bool) *PtrV {
+	return x.allocObjIn(t, ptrT, zero, "")
+}
+
+// allocObjIn: stem != "" places the object in a private heap family (non-escaping locals cannot alias heap objects).
+func (x *Exec) allocObjIn(t types.Type, ptrT types.Type, zero bool, stem string) *PtrV {
 	ref := x.allocRef()
-	p := &PtrV{T: ptrT, Kind: PObj, Base: ref, Root: t}
+	p := &PtrV{T: ptrT, Kind: PObj, Base: ref, Root: t, Global: stem}
 	if zero {
 		x.storeTo(p, x.zeroVal(t))
 	}
@@ -399,6 +404,9 @@ func (x *Exec) computeLoops(fn *ssa.Function) map[*ssa.BasicBlock]*loopInfo {
 	}
 	sort.Slice(heads, func(i, j int) bool { return heads[i].Index < heads[j].Index })
 	specs := x.eng.loopsOf[fn]
+	if specs == nil && fn.Origin() != nil {
+		specs = x.eng.loopsOf[fn.Origin()]
+	}
 	for i, h := range heads {
 		loops[h].ordinal = i + 1
 		for _, c := range specs {
@@ -454,7 +462,7 @@ func (x *Exec) mergeStates(es []*State) *State {
 	}
 	sort.Strings(ks)
 	for _, k := range ks {
-		init := &Term{quoteName("H0" + k), x.heapSort[k]}
+		init := x.sc.global(quoteName("H0"+k), x.heapSort[k])
 		vals := make([]*Term, len(es))
 		same := true
 		for i := range es {
